@@ -262,9 +262,11 @@ class SpecialOperand(Operand):
             if not self.operand_string:
                 raise OperandTypeError("one or more registers must be specified")
 
+            own_stack = self.instruction.mnemonic[-1]
+            other_stack = "U" if own_stack == "S" else "S"
             registers = self.operand_string.split(",")
             for register in registers:
-                if register not in REGISTERS:
+                if register not in REGISTERS or register == own_stack:
                     raise OperandTypeError("[{}] unknown register".format(register))
 
                 post_byte |= 0x06 if register == "D" else 0x00
@@ -274,7 +276,7 @@ class SpecialOperand(Operand):
                 post_byte |= 0x08 if register == "DP" else 0x00
                 post_byte |= 0x10 if register == "X" else 0x00
                 post_byte |= 0x20 if register == "Y" else 0x00
-                post_byte |= 0x40 if register == "U" else 0x00
+                post_byte |= 0x40 if register == other_stack else 0x00
                 post_byte |= 0x80 if register == "PC" else 0x00
 
         if self.instruction.mnemonic == "EXG" or self.instruction.mnemonic == "TFR":
